@@ -44,6 +44,13 @@ func (p *plain) VarlinkDispatch(ctx context.Context, c varlink.Call, m string) e
 	return c.ReplyMethodNotImplemented(ctx, m)
 }
 
+type slow struct{ plain }
+
+func (p *slow) VarlinkGetDescription() string {
+	time.Sleep(15 * time.Millisecond)
+	return p.descr
+}
+
 func sd(s string) string { return "S" + vt.Hx([]byte(s)) }
 func ld(l []string) string {
 	if l == nil {
@@ -101,6 +108,23 @@ func runCase(dir string, n int, line string) (res string) {
 				out = append(out, "x")
 			} else {
 				out = append(out, "o")
+			}
+		case "reg2":
+			// two goroutines register the same name at the same time (the interface takes a moment to produce its description):
+			// exactly one of them may succeed, whatever the interleaving
+			name, descr := string(vt.Unhex(f[1])), string(vt.Unhex(f[2]))
+			res := make(chan bool, 2)
+			for k := 0; k < 2; k++ {
+				go func() { res <- svc.RegisterInterface(&slow{plain{name, descr}}) == nil }()
+			}
+			a, b := <-res, <-res
+			switch {
+			case a && b:
+				out = append(out, "oo")
+			case a || b:
+				out = append(out, "ox")
+			default:
+				out = append(out, "xx")
 			}
 		case "listen", "listen2":
 			if done != nil {
